@@ -39,8 +39,11 @@ def check_stream(H, warmup_time_of, lenient_stopping_after_end=False, silent_fai
     findings = []
     for rp in replications(H):
         seg = H[rp["start"]:rp["end"]]
-        items = [h for h in seg if h[0] in ("ntf", "exe")
+        items = [h for h in seg if h[0] in ("ntf", "exe", "tc_subscribed")
                  or (h[0] == "cmd" and h[2] == "end_replication")]
+        # late mode: the recorder subscribes to TIME_CHANGED from inside a handler;
+        # announcements are only due from then on
+        tc_on = not any(h[0] == "tc_late_mode" for h in H)
         ntf = [h for h in items if h[0] == "ntf"]
         names = [h[1] for h in ntf]
         # START_REPLICATION once and first
@@ -54,7 +57,7 @@ def check_stream(H, warmup_time_of, lenient_stopping_after_end=False, silent_fai
         if n_sr == 1 and names[0] != "START_REPLICATION":
             findings.append(("stream-grammar", "START_REPLICATION is not the first "
                              "notification: %s" % names[:6]))
-        items_x = [h for h in items if h[0] != "cmd"]
+        items_x = [h for h in items if h[0] not in ("cmd", "tc_subscribed")]
         if n_sr and items_x and items_x[0][0] == "exe":
             findings.append(("stream-grammar",
                              "a handler ran before START_REPLICATION"))
@@ -124,10 +127,12 @@ def check_stream(H, warmup_time_of, lenient_stopping_after_end=False, silent_fai
                 # the command moves the clock to the end by itself
                 prev_exec_time = None
                 seg_clock = None
+            if h[0] == "tc_subscribed":
+                tc_on = True
             if _is_exec(h):
                 t = h[2]
                 base = prev_exec_time if prev_exec_time is not None else seg_clock
-                if base is not None and t != base:
+                if tc_on and base is not None and t != base:
                     # a change of the clock must have been announced
                     j = k - 1
                     while j >= 0 and not _is_exec(items[j]) and not (
